@@ -144,7 +144,8 @@ def requests_for(app, inst):
     for rule in app.url_map.iter_rules():
         if rule.endpoint == "static":
             continue
-        for method in sorted(rule.methods - {"HEAD", "OPTIONS"}):
+        # HEAD is dispatched to the GET view (the view runs in full); OPTIONS is answered by Flask itself without calling the view
+        for method in sorted(rule.methods - {"OPTIONS"}):
             # "0"*32 is a placeholder: probe() substitutes the id of the instance of ITS OWN fresh server
             ids = ["0" * 32, "ffffffffffffffffffffffffffffffff"] if "<instance_uuid>" in rule.rule else [None]
             for i in ids:
